@@ -187,7 +187,12 @@ class Env:
     def p_Result__unwrap(s, M, st, th, ci, a):
         v = a[0]
         if v.variant == 'Err':
-            # the error value is dropped as part of the panic message construction
+            # the error value is dropped while the panic unwinds (a PoisonError releases its guard)
+            e = payload(v)
+            if isinstance(e, Agg) and e is not UNIT:
+                M.push_k(th, 'after', 'panic', ('called `Result::unwrap()` on an `Err` value', 'deadpool'))
+                M.push_k(th, 'drop', (e,), None)
+                return [('push', st)]
             return [('panic', st, 'called `Result::unwrap()` on an `Err` value', 'deadpool')]
         return s.ret(st, payload(v))
 
